@@ -23,7 +23,7 @@ from vf import histbfs
 from vf.c04_model import MOD, NONTRIVIAL_RULE, replay_case
 from vf.common import Ctx
 
-BUDGET = {'quick': 66.0, 'thorough': 1560.0}
+BUDGET = {'quick': 100.0, 'thorough': 1560.0}
 BOUND = {
     'quick': (
         'all call histories of length <= 2 on radixes (2,3) [full alphabet], '
